@@ -18,6 +18,7 @@ EXPLANATION = (
     "reported as unrecognised (evidence only)."
     " (R5) in the variadic concatenation arms the running offset advances by the block's extent along the concatenation dimension (shape()[1] in horzcat, shape()[0] in vertcat)."
     " (R6) the CopyMat block-copy primitives are executed over a finite table of block/result shapes and offsets: every element of the block lands at its row/column of the column-major result exactly once and the returned advance is the block's row count (row-major copy) or length (linear copies)."
+    ' (R7) block operands keep their position: field eK of every concatenation struct built by the horzcat / vertcat dispatchers comes from arguments[K].'
 )
 
 
@@ -239,3 +240,5 @@ def run_r6(F, rep, tier="quick"):
                   sample={"method": name, "impls": [x["self"] for x in its], "table": "r in %s, c in %s, slack 0..3, offset 0..slack" % (list(RS), list(CS))})
     rep.floor("C11-R6", "distinct copy bodies decided", len(distinct), 4)
     rep.floor("C11-R6", "shape-table evaluations", n_eval, 400)
+    from rules.loopshape import c11_block_operand_positions
+    c11_block_operand_positions(F, rep)
